@@ -32,6 +32,7 @@ class CProg:
         self.qmat = [list(int(k) for k in q) for q in getattr(formula, 'qmat', [])]
         self.xmat = [list(int(k) for k in x) for x in getattr(formula, 'xmat', [])]
         self.lmi = list(getattr(formula, 'lmi', []))
+        self.pcones = []     # abstracted IPCone calls: (left form, [right forms], beta)
         if len(self.obj) != self.n or len(self.lb) != self.n or len(self.vtype) != self.n:
             raise ValueError('inconsistent program dimensions')
 
@@ -92,8 +93,36 @@ class CProg:
             out.append(expfun(vs[a], vs[b], vs[c]))
         return out
 
+    def form_term(self, f, vs):
+        z3 = z3mod()
+        t = z3.RealVal(str(f[1]))
+        for j, c in sorted(f[0].items()):
+            t = t + z3.RealVal(str(c)) * vs[j]
+        return t
+
+    def pcone_cons(self, vs, which=None):
+        """|left|^N <= prod right_i^beta_i, right >= 0 (meaning of an abstracted IPCone call)."""
+        z3 = z3mod()
+        out = []
+        for k, (left, rights, beta) in enumerate(self.pcones):
+            if which is not None and k not in which:
+                continue
+            l = self.form_term(left, vs)
+            al = z3.If(l >= 0, l, -l)
+            lhs = None
+            for _ in range(sum(beta)):
+                lhs = al if lhs is None else lhs * al
+            rhs = None
+            for f, b in zip(rights, beta):
+                t = self.form_term(f, vs)
+                out.append(t >= 0)
+                for _ in range(b):
+                    rhs = t if rhs is None else rhs * t
+            out.append(lhs <= rhs)
+        return out
+
     def constraints(self, vs, expfun=None):
-        cs = self.row_cons(vs) + self.bound_cons(vs) + self.soc_cons(vs)
+        cs = self.row_cons(vs) + self.bound_cons(vs) + self.soc_cons(vs) + self.pcone_cons(vs)
         if self.xmat:
             if expfun is None:
                 raise ValueError('program has exponential cones; need expfun')
@@ -136,6 +165,11 @@ class CProg:
             items.append((('q', k), [j for j in q if j not in iface], [j for j in q if j in iface]))
         for k, x in enumerate(self.xmat):
             items.append((('x', k), [j for j in x if j not in iface], [j for j in x if j in iface]))
+        for k, (left, rights, beta) in enumerate(self.pcones):
+            cols = set(left[0])
+            for f in rights:
+                cols |= set(f[0])
+            items.append((('p', k), [j for j in cols if j not in iface], [j for j in cols if j in iface]))
         for key, loc, _ in items:
             find(key)
             for j in loc:
@@ -143,11 +177,13 @@ class CProg:
         comps = {}
         for key, loc, ifc in items:
             r = find(key)
-            b = comps.setdefault(r, dict(rows=[], cones=[], xcones=[], locals=set(), iface=set()))
+            b = comps.setdefault(r, dict(rows=[], cones=[], xcones=[], pcones=[], locals=set(), iface=set()))
             if key[0] == 'r':
                 b['rows'].append(key[1])
             elif key[0] == 'q':
                 b['cones'].append(key[1])
+            elif key[0] == 'p':
+                b['pcones'].append(key[1])
             else:
                 b['xcones'].append(key[1])
             b['locals'].update(loc)
@@ -158,6 +194,8 @@ class CProg:
         cs = self.row_cons(vs, blk['rows'])
         cs += self.bound_cons(vs, sorted(blk['locals'] | blk['iface']))
         cs += self.soc_cons(vs, [self.qmat[k] for k in blk['cones']])
+        if blk.get('pcones'):
+            cs += self.pcone_cons(vs, set(blk['pcones']))
         return cs
 
     def summary(self):
@@ -193,6 +231,15 @@ class CProg:
             ss = sum(xv[t] * xv[t] for t in q[1:])
             if h < -tol or ss > (h + tol * (1 + abs(h))) ** 2 and float(ss) ** 0.5 > float(h) + float(tol) * (1 + abs(float(h))):
                 bad.append(('soc', k, float(ss) ** 0.5 - float(h)))
+        for k, (left, rights, beta) in enumerate(self.pcones):
+            def ev(f):
+                return float(f[1]) + sum(float(c) * float(xv[j]) for j, c in f[0].items())
+            rv = [ev(f) for f in rights]
+            prod = 1.0
+            for r, b in zip(rv, beta):
+                prod *= max(r, 0.0) ** b
+            if min(rv) < -float(tol) or abs(ev(left)) ** sum(beta) > prod * (1 + 1e-6) + float(tol):
+                bad.append(('pcone', k, abs(ev(left)) ** sum(beta) - prod))
         import math
         for k, (a, b, c) in enumerate(self.xmat):
             fa, fb, fc = float(xv[a]), float(xv[b]), float(xv[c])
